@@ -252,6 +252,9 @@ def taskRows (f : File) (env : Str → Option Str) (t : TaskFull) : List String 
     match t.cmds[i]? with
     | none => []
     | some c =>
+      match modelRow scope env t.clean.name i c with
+      | some r => [hexStr r.task, toString r.idx, hexStr r.cmd, hexStr r.stdout, toString r.status]
+      | none =>
       let cmd := match expand scope c.src with
         | .ok e => hexStr e
         | .error _ => "UNMODELLED"
